@@ -481,6 +481,9 @@ func c06Points(g *key.Group) [][]byte {
 }
 
 func c06NodesDesc(g *key.Group) []string {
+	if g == nil {
+		return nil
+	}
 	ns := append([]*key.Node(nil), g.Nodes...)
 	sort.Slice(ns, func(i, j int) bool { return ns[i].Index < ns[j].Index })
 	var out []string
